@@ -166,6 +166,13 @@ func replayConc(raw json.RawMessage) int {
 		fmt.Println(err)
 		return 2
 	}
+	var rr struct {
+		Check string `json:"check"`
+		Race  string `json:"race"`
+	}
+	if json.Unmarshal(raw, &rr) == nil && rr.Race != "" {
+		return replayRace(rr.Check, rr.Race)
+	}
 	runtime.GOMAXPROCS(1)
 	env, err := newConcEnv()
 	if err != nil {
@@ -196,6 +203,7 @@ func replayConc(raw json.RawMessage) int {
 
 func init() {
 	Registry["C04"] = C04
+	RaceBodies["C04"] = func() error { return concRaceBodies(c04Scenarios("quick")) }
 	Replayers["C04"] = replayConc
 	Replayers["C15"] = replayConc
 	_ = os.Getenv
